@@ -80,6 +80,12 @@ func Sleep(d Duration) {
 	if vsched.Poisoned() {
 		vsched.PoisonExit()
 	}
+	if s.Timed {
+		// discrete-event mode: block until the virtual clock reaches the wake-up time
+		wake := s.Now + int64(d)
+		vsched.SleepUntil(wake)
+		return
+	}
 	vsched.Yield(vsched.KSleep)
 	s.Now += int64(d)
 }
@@ -105,10 +111,17 @@ func NewTicker(d Duration) *Ticker {
 	}
 	t := &Ticker{c: make(chan Time, 1), d: d}
 	t.C = t.c
-	t.env = vsched.AddEnv("ticker:"+vsched.Site(), -1, func() bool { return !t.stopped && len(t.c) == 0 }, func() {
-		s.Now += int64(t.d)
-		t.c <- time.Unix(0, s.Now)
-	})
+	last := s.Now
+	t.env = vsched.AddTimedEnv("ticker:"+vsched.Site(), -1, func() bool { return !t.stopped && (s.Timed || len(t.c) == 0) }, func() {
+		if !s.Timed {
+			s.Now += int64(t.d)
+		}
+		last = s.Now
+		select {
+		case t.c <- time.Unix(0, s.Now):
+		default: // a slow receiver misses ticks, as with the real ticker
+		}
+	}, func() int64 { return last + int64(t.d) })
 	return t
 }
 
@@ -134,18 +147,22 @@ type Timer struct {
 	C     <-chan Time
 	c     chan Time
 	real  *time.Timer
-	armed bool
-	d     Duration
-	f     func()
+	armed   bool
+	armedAt int64
+	d       Duration
+	f       func()
 }
 
 func newTimer(d Duration, f func(), site string) *Timer {
 	s := vsched.Cur()
 	t := &Timer{c: make(chan Time, 1), d: d, armed: true, f: f}
 	t.C = t.c
-	vsched.AddEnv("timer:"+site, -1, func() bool { return t.armed }, func() {
+	t.armedAt = s.Now
+	vsched.AddTimedEnv("timer:"+site, -1, func() bool { return t.armed }, func() {
 		t.armed = false
-		s.Now += int64(t.d)
+		if !s.Timed {
+			s.Now += int64(t.d)
+		}
 		if t.f != nil {
 			ff := t.f
 			vsched.Go(ff)
@@ -155,7 +172,7 @@ func newTimer(d Duration, f func(), site string) *Timer {
 		case t.c <- time.Unix(0, s.Now):
 		default:
 		}
-	})
+	}, func() int64 { return t.armedAt + int64(t.d) })
 	return t
 }
 
@@ -199,5 +216,8 @@ func (t *Timer) Reset(d Duration) bool {
 	was := t.armed
 	t.d = d
 	t.armed = true
+	if s := vsched.Cur(); s != nil {
+		t.armedAt = s.Now
+	}
 	return was
 }
